@@ -564,7 +564,7 @@ func workloads(r *mc.Run) (ws []workload, bound []int) {
 			for _, a := range triples {
 				for _, b := range triples {
 					if root == 2 {
-						add(workload{root, [][]cop{a, b}}, 2)
+						add(workload{root, [][]cop{a, b}}, 1)
 					}
 				}
 			}
@@ -572,10 +572,28 @@ func workloads(r *mc.Run) (ws []workload, bound []int) {
 				for bi, b := range dbl {
 					for ci, c := range dbl {
 						if (ai+bi+ci)%3 == root { // a third of the 3x2 workloads per root
-							add(workload{root, [][]cop{a, b, c}}, 2)
+							add(workload{root, [][]cop{a, b, c}}, 1)
 						}
 					}
 				}
+			}
+		}
+	}
+	if !r.Quick() {
+		// 2 threads x 3 ops over three conflicting operations with a higher bound
+		fam = "2x3 over 3 operations"
+		small := []cop{{K: "get", A: 0}, {K: "put", A: 2, V: 1}, {K: "remove", A: 0}}
+		var tri [][]cop
+		for _, a := range small {
+			for _, b := range small {
+				for _, c := range small {
+					tri = append(tri, []cop{a, b, c})
+				}
+			}
+		}
+		for _, a := range tri {
+			for _, b := range tri {
+				add(workload{2, [][]cop{a, b}}, 2)
 			}
 		}
 	}
@@ -880,7 +898,7 @@ func parent(r *mc.Run, nworkloads int) {
 	r.Count("workloads_enumerated", int64(nworkloads))
 	r.Count("workloads_with_more_than_one_final_outcome", int64(multi))
 	r.Bound("worker_processes", n)
-	r.Bound("preemption_bound", mc.Pick(r, "2x2 over 12 operations: 2; 2x2 over 6 operations: 3; 3x1: 2; 4x1 over 6 operations: 1; 2x1: unbounded", "2x2 over 12 operations: 3; 2x2 over 6 operations: 4; 2x3 (full cache) and 3x2 over 6 operations: 2; 3x1 over 12 operations: 4, over 6 operations: unbounded; 4x1 over 6 operations: 2; 2x1: unbounded"))
+	r.Bound("preemption_bound", mc.Pick(r, "2x2 over 12 operations: 2; 2x2 over 6 operations: 3; 3x1: 2; 4x1 over 6 operations: 1; 2x1: unbounded", "2x2 over 12 operations: 3; 2x2 over 6 operations: 4; 2x3 (full cache) and 3x2 over 6 operations: 1; 2x3 over get/put/remove: 2; 3x1 over 12 operations: 4, over 6 operations: unbounded; 4x1 over 6 operations: 2; 2x1: unbounded"))
 	r.Bound("roots", mc.Pick(r, "2x2 over 12 operations: full cache; everything else: empty, half full, full", "empty, half full, full"))
 	r.Rule("states = workloads, transitions = complete executions (schedules) of the real Cache under the cooperative scheduler; every schedule within the preemption bound; scheduling points at Lock/Unlock/RLock/RUnlock, every Store-seam call, the eviction callback, operation call and return; non-trivial = executions with at least one preemption")
 	r.Assume("sequential consistency; unsynchronised accesses to plain fields are visible only to the separate free-running -race pass (sampling, a complement)")
